@@ -716,7 +716,7 @@ if __name__ == "__main__":
         if e.startswith("cMatchSeq"):
             m = re.search(r"\[(.*)\]", e)
             if m: return 1 + len(re.findall(r'"[^"]*"', m.group(1)))
-            return 7          # a word list passed as a parameter (`pNamedIndex`, `pKwTable`): at most 6 words in the model
+            return 1          # a word list passed as a parameter (`pNamedIndex`, `pKwTable`): `+ kws.length` on the right-hand side
         if e.endswith(".children.length"): return 0
         raise SystemExit("cmax: " + e)
 
@@ -853,6 +853,110 @@ if __name__ == "__main__":
         out.append("theorem %s_bnd (n : Nat) : %s := (bndF_all d n).%s" % (d.name, field(d, "n"), d.name))
     out += ["", "end PM"]
     wr("MsqProofs/Lemmas/ParseCostBnd.lean", "\n".join(out) + "\n")
+    # ============================================================================ the linear bound, statement level
+    # potential CM2 * adqWL: the unit per segment (`adqWLL`) must pay the constants of the statement level's segment parsers (`pDefCol` …)
+    CM2 = 250
+    SLK = 600           # slack left by a statement that succeeds (it has consumed a token): pays the look-ahead of the loop of `parse_statements`
+    SLACKF = set("pInsertType pSet pDelete pDropTable pCreateTable pAnalyze pAlter pMsck pTruncate pUse pShowColumns pInsert pUpdate pStatement".split())
+    LIFTED = {"pCompute": True, "pOr": True, "pSelectStmt": True, "pWith": True, "pOptOr": True, "pOrderByOpt": True, "pFromTable": True, "pFromTables": True,
+              "pLimit": False, "pTableName": False, "popSrc": False}          # lemmas `X_bnd2` of ParseCostBndS0.lean (True: takes `d f`)
+    CF["popSrc"] = 2
+    PARAMW = {"pNamedIndex": "kws", "pKwTable": "kws"}
+    STRICT = {}
+    PROJ = {}
+    GROUP = {}
+    for _i, _names in enumerate([
+            "pTblName pInsertType configStringLoop pConfigString pConfigStrExpr pColType pPartitionItem pPartition pFkAction pOptFkAction pNameList pForeignKey pIndexCol pIndexCols pOptSrc pIndexTail pPrimaryIndex pNamedIndex pUniqueIndex pNormalIndex pFulltextIndex pGenerated optEqSrc pKwTable pMsck pTruncate pUse pSet pDropTable pColumnName pOptColumns",
+            "defColLoop pDefCol pColOrIdx createElems createOpts pCreateTable",
+            "pWhereOrderLimit valuesLoop pOptPartition pWithOpt pInsert pUpdateSetCol updateSetLoop pUpdateSet pUpdate pDelete pFromClause pShowColumns pAnalyze",
+            "pAlterExpr alterLoop pAlter",
+            "pStatement statementsLoop pStatements"]):
+        for _n in _names.split(): GROUP[_n] = _i
+    GIMPORTS = {0: ["ParseCostBndS0"], 1: ["ParseCostBndS1"], 2: ["ParseCostBndS1"], 3: ["ParseCostBndS2"], 4: ["ParseCostBndS3", "ParseCostBndS4"]}
+    sfueled = set(d.name for d in STMT if d.alias is None and "(d : Gen.D) (f : Nat)" in d.binders)
+
+    def skind(d):
+        if d.alias is not None: return "R"
+        return "R" if d.ret.startswith("R ") else "E"
+
+    def sconst(d):
+        if d.alias is not None:
+            tgt = d.alias.split()[0]
+            return CF[tgt] + len(re.findall(r'"[^"]*"', d.alias))
+        if d.name == "createElems": return 0
+        return const_of(d, True)
+
+    def bnd2_of(c):
+        if c in LIFTED: return ("%s_bnd2 d f" if LIFTED[c] else "%s_bnd2") % (c + "_k" if c == "popSrc" else c)
+        return ("%s_bnd2 d f" if c in sfueled else "%s_bnd2") % c
+
+    def proj2_of(c): return ("%s_proj d f" if (c in sfueled or c in bnames_block) else "%s_proj") % c
+
+    def remf(nm, app):
+        if nm in SLACKF: return "remS2 %d (%s).2" % (SLK, app)
+        if nm == "pGenerated": return "remG %d (%s).2" % (SLK, app)
+        return "rem2 (%s).2" % app
+
+    def stmt_bnd(d, known_s):
+        nm = d.name
+        C = CF[nm]
+        if d.alias is not None and nm in SLACKF:
+            tgt = d.alias.split()[0]
+            return ["theorem %s_bnd2 : ∀ ts κ, (%s_k ts κ).1 + %s ≤ κ + %d * adqWL ts + %d := by" % (nm, nm, remf(nm, nm + "_k ts κ"), CM2, C),
+                    "  intro ts κ", "  have h_pTblName := pTblName_bnd2", "  generalize h : %s_k ts κ = out" % nm, "  unfold %s_k %s_k at h" % (nm, tgt), "  split_run2 <;> " + BGRIND, ""]
+        if d.alias is not None:
+            tgt = d.alias.split()[0]
+            return ["theorem %s_bnd2 : ∀ ts κ, (%s_k ts κ).1 + rem2 (%s_k ts κ).2 ≤ κ + %d * adqWL ts + %d := fun ts κ => %s_bnd2 %s ts κ" %
+                    (nm, nm, nm, CM2, C, tgt, " ".join(["_"] * len(read_args(d.alias[len(tgt):])[0]))), ""]
+        k = skind(d)
+        haves = []
+        for c in list(LIFTED) + known_s:
+            if c != nm and uses(c, d.src): haves.append("  have h_%s := %s" % (c, bnd2_of(c)))
+        for c in PROJ.get(nm, []): haves.append("  have p_%s := %s" % (c, proj2_of(c)))
+        haves += STRICT.get(nm, [])
+        for i, m in enumerate(re.finditer(r"eachClosed\s+(\((?:[^()]|\([^()]*\))*\)|[\w']+)", d.src)):
+            arg = m.group(1)
+            ak = re.sub(r"^(\(?)([\w']+)", lambda mm: mm.group(1) + mm.group(2) + "_k", arg)
+            g = re.match(r"\(?([\w']+)", arg).group(1)
+            assert CF[g] + 1 <= CM2, ("segment parser too expensive for CM2", g, CF[g])
+            haves.append("  have hE%d := eachClosed_k_rem2 %s %d (by omega) (%s)" % (i, ak, CF[g], bnd2_of(g)))
+        extra = (" + %s.length" % PARAMW[nm]) if nm in PARAMW else ""
+        if d.arms is None:
+            bn = bnames(d)
+            app = "%s_k %s κ" % (nm, " ".join(bn))
+            lhs = "(%s).1 + %s" % (app, remf(nm, app)) if k == "R" else "(%s).1" % app
+            return ["theorem %s_bnd2 %s (κ : Nat) : %s ≤ κ + %d * adqWL ts + %d%s := by" % (nm, d.binders, lhs, CM2, C, extra)] + haves + \
+                   ["  generalize h : %s = out" % app, "  unfold %s_k at h" % nm, "  split_run2 <;> " + BGRIND, ""]
+        a = len(d.arrows)
+        bn = bnames(d)
+        app = "%s_k %s %s κ" % (nm, " ".join(bn), xs(a))
+        lhs = "(%s).1 + rem2 (%s).2" % (app, app) if k == "R" else "(%s).1" % app
+        rest = " ".join("x%d" % i for i in range(1, a))
+        if d.arrows[0] == "Nat":
+            cur = max(i for i, t in enumerate(d.arrows) if t == "List Tok")
+            return ["theorem %s_bnd2 %s : ∀ %s κ, %s ≤ κ + %d * adqWL x%d + %d := by" % (nm, d.binders, xs(a), lhs, CM2, cur, C)] + haves + \
+                   ["  intro x0", "  induction x0 with", "  | zero => intro %s κ; simp only [%s_k, rem2_error]; omega" % (rest, nm), "  | succ n ih =>", "    intro %s κ" % rest,
+                    "    generalize h : %s_k %s (n+1) %s κ = out" % (nm, " ".join(bn), rest), "    unfold %s_k at h" % nm, "    split_run2 <;> " + BGRIND, ""]
+        assert d.arrows[0] == "List (List Tok)"
+        return ["theorem %s_bnd2 %s : ∀ %s κ, %s ≤ κ + %d * adqWLL x0 + %d := by" % (nm, d.binders, xs(a), lhs, CM2, C)] + haves + \
+               ["  intro x0", "  induction x0 with", "  | nil => intro %s κ; simp [%s_k]" % (rest, nm), "  | cons sg rest ih =>", "    intro %s κ" % rest,
+                "    generalize h : %s_k %s (sg :: rest) %s κ = out" % (nm, " ".join(bn), rest), "    unfold %s_k at h" % nm, "    split_run2 <;> " + BGRIND, ""]
+
+    known_s = []
+    SOUT = {}
+    for d in STMT:
+        CF[d.name] = sconst(d)
+        SOUT.setdefault(GROUP[d.name], []).extend(stmt_bnd(d, known_s))
+        known_s.append(d.name)
+    if "--consts" in sys.argv:
+        for d in STMT: print("%-18s c = %d" % (d.name, CF[d.name]))
+        print("CM2 =", CM2)
+    wr("MsqProofs/Lemmas/ParseCostBndS0.lean", open(os.path.join(ROOT, "tools", "dev", "ParseCostBndS0.lean.in"), encoding="utf-8").read().replace("CM2", str(CM2)).replace("SLK", str(SLK)))
+    for gi in sorted(SOUT):
+        out = ["import MsqProofs.Lemmas.%s" % m for m in GIMPORTS[gi]] + \
+              ["/-! GENERATED by tools/gen_cost.py — C19 linear bound, statement level (Parse/Stmt.lean, `pStatements`), part %d of %d: potential %d * adqWL -/" % (gi + 1, len(SOUT), CM2)] + POPTS
+        out += SOUT[gi] + ["end PM"]
+        wr("MsqProofs/Lemmas/ParseCostBndS%d.lean" % (gi + 1), "\n".join(out) + "\n")
     unused = [k for k in SITES if k not in USED]
     if unused: print("UNUSED SITES:", unused)
     print(len(pre), "helpers,", len(block), "block functions,", len(STMT), "statement-level functions")
